@@ -80,7 +80,9 @@ SPEC = Spec(
          "outstanding (corpus cases 4, 5). A Run goroutine "
          "that stops making progress in a gated history while a FatalError report has not come back is "
          "C20/runloop/run-wedged-while-fatal-error-report-pending. "
-         "Second session: failing set-up outcomes now also include a configuration that does not pass xconfmap.Validate (pipeline "
+         "Second session: corpus case 6 = a component reports RecoverableError and then FatalError while the collector idles in the "
+         "select (C20/runloop/fatal-error-report-never-received); in about half of the histories every FatalError report is preceded by "
+         "a RecoverableError report of the same component. Failing set-up outcomes now also include a configuration that does not pass xconfmap.Validate (pipeline "
          "references an exporter that is not configured) and one that does not unmarshal (unknown section) besides a failing "
          "Retrieve / component create. Every harness: the sampled state word (one `tr st` per change) must be a path of the "
          "lifecycle FSM (Lean prop fsm, C20/state/transition-outside-fsm, sound by C20_fsm_check_sound). signals: the gated "
